@@ -59,8 +59,10 @@ def gen_programs(r, n, tier):
     return [gen_one(r, i, tier) for i in range(n)]
 
 
-def docdiff(a, b, path="", out=None):
-    """structured differences between two JSON documents (a: original, b: reload)"""
+def docdiff(a, b, path="", out=None, tol=0.0):
+    """structured differences between two JSON documents (a: original, b: reload); tol > 0: numbers
+    are compared with that relative tolerance (results of further arithmetic on a reload whose
+    Deviate went through variance = vte/entries are equal only up to rounding in binary64)"""
     if out is None:
         out = []
     if isinstance(a, dict) and isinstance(b, dict):
@@ -71,14 +73,17 @@ def docdiff(a, b, path="", out=None):
             elif k not in a:
                 out.append({"path": path + "/" + k, "kind": "missing_in_orig", "reload": b[k]})
             else:
-                docdiff(a[k], b[k], path + "/" + k, out)
+                docdiff(a[k], b[k], path + "/" + k, out, tol)
     elif isinstance(a, list) and isinstance(b, list):
         if len(a) != len(b):
             out.append({"path": path, "kind": "length", "orig": len(a), "reload": len(b)})
         for i, (x, y) in enumerate(zip(a, b)):
-            docdiff(x, y, path + "[%d]" % i, out)
+            docdiff(x, y, path + "[%d]" % i, out, tol)
     else:
         same = (a == b) or (isinstance(a, float) and isinstance(b, float) and a != a and b != b)
+        if (not same and tol and isinstance(a, (int, float)) and isinstance(b, (int, float))
+                and not isinstance(a, bool) and not isinstance(b, bool)):
+            same = abs(a - b) <= tol * max(abs(a), abs(b), 1e-300)
         # numbers are compared by value (a quantity that returned a bool is stored as such)
         if not same:
             out.append({"path": path, "kind": "value", "orig": a, "reload": b})
@@ -114,13 +119,16 @@ def oracle(p, run, exact):
     if d:
         fails.append({"clause": "toJson(fromJson(toJson(h))) is the identical document", "diff": d[:4],
                       "known": known_name_loss(d)})
+    # the identical-document clause is exact; arithmetic on the reload is compared exactly on
+    # exact-safe programs and up to rounding otherwise
+    tol = 0.0 if exact else 1e-9
     for name, ja_, jr_, oa, orr in meta["pairs"]:
         pa, pr = obs[oa], obs[orr]
         ia, ir = prod.index(oa), prod.index(orr)
         if pa[0] == 0 and pr[0] != 0:
             fails.append({"clause": "the reload supports %s like the original" % name, "diff": "raised on the reload"})
         elif pa[0] == 0:
-            d = docdiff(doc(ia), doc(ir))
+            d = docdiff(doc(ia), doc(ir), tol=tol)
             if d:
                 fails.append({"clause": "%s on the reload gives the same document as on the original" % name,
                               "diff": d[:4], "known": known_name_loss(d)})
@@ -130,7 +138,7 @@ def oracle(p, run, exact):
         # original + reload is original + original (the reload is interchangeable with the original)
         ia = prod.index(meta["pairs"][0][3])
         im = prod.index(meta["mixed"])
-        d = docdiff(doc(ia), doc(im))
+        d = docdiff(doc(ia), doc(im), tol=tol)
         if d and obs[meta["pairs"][0][3]][0] == 0:
             fails.append({"clause": "original + reload gives the same document as original + original",
                           "diff": d[:4], "known": known_name_loss(d)})
